@@ -122,3 +122,13 @@ package multiplex
 //@   props C16 C10
 //@   trusted
 //@   ensures result != nil
+
+// ---------------------------------------------------------------------------
+// Reading from a logical connection (C10): one whole message per Read, never more than fits
+// ---------------------------------------------------------------------------
+//@ func conn.Read
+//@   props C10 C11
+//@   requires wfConn(c) && wfMux(c.mux) && (done(c.mux.errOnce) ==> c.mux.err != nil)
+//@   modifies @writes
+//@   ensures [fits]  result.1 == nil ==> 0 <= result.0 && result.0 <= len(buf)
+//@   ensures [err]   result.1 != nil ==> result.0 == 0
